@@ -54,6 +54,8 @@ pub struct SysModel {
     pub map_fixed_seen: bool,
     pub io_script: VecDeque<IoVerdict>,
     pub io_log: Vec<IoCall>,
+    /// abort the operation (simulated budget exhaustion) after this many read/write calls
+    pub io_call_cap: Option<usize>,
     pub stdout_capture: Option<Vec<u8>>,
     // simulated MMU
     pub mmu_on: bool,
@@ -297,6 +299,11 @@ pub unsafe fn hook_read(fd: libc::c_int, buf: *mut libc::c_void, count: libc::si
             return -1;
         }
     }
+    if let Some(cap) = c.sys.io_call_cap {
+        if c.sys.io_log.len() >= cap {
+            std::panic::panic_any(crate::sim::SimPanic::Budget);
+        }
+    }
     let v = next_verdict();
     let (ret, e) = match v {
         IoVerdict::Pass => {
@@ -346,6 +353,11 @@ pub unsafe fn hook_write(fd: libc::c_int, buf: *const libc::c_void, count: libc:
             c.sys.mmu_faults.push(format!("write(2) buffer of {} byte(s): {}", count, why));
             set_errno(libc::EFAULT);
             return -1;
+        }
+    }
+    if let Some(cap) = c.sys.io_call_cap {
+        if c.sys.io_log.len() >= cap {
+            std::panic::panic_any(crate::sim::SimPanic::Budget);
         }
     }
     let v = next_verdict();
